@@ -323,3 +323,164 @@ Proof.
 Qed.
 
 End Fuel.
+
+(* ------------------------------------------------------------------ tokens *)
+Lemma toks_app a b : toks (a ++ b) = toks a ++ toks b.
+Proof.
+  induction a as [|e a IH]; [reflexivity|]. destruct e; cbn [toks app]; rewrite IH; reflexivity.
+Qed.
+
+(* the tokens of a piece of log (kept newest first) *)
+Definition rtoks (evs : list event) : list tok := toks (rev evs).
+
+Lemma rtoks_app a b : rtoks (a ++ b) = rtoks b ++ rtoks a.
+Proof. unfold rtoks. rewrite rev_app_distr, toks_app. reflexivity. Qed.
+
+Lemma rtoks_cons e a : rtoks (e :: a) = rtoks a ++ toks [e].
+Proof. unfold rtoks. cbn [rev]. rewrite toks_app. reflexivity. Qed.
+
+(* ------------------------------------------------------------------ 1. literal, balanced segments and their tokens *)
+Inductive LitSem : list raw -> list tok -> Prop :=
+| LS_nil : LitSem [] []
+| LS_row id text rest t : LitSem rest t -> LitSem (lit_row KPlain id text :: rest) (TRow id text :: t)
+| LS_block id text body tb rest t :
+    LitSem body tb -> LitSem rest t ->
+    LitSem (lit_row KBeginBlock id text :: body ++ end_row :: rest) (TPush :: tb ++ TPop id :: t).
+
+Lemma LitSem_app a ta b tb : LitSem a ta -> LitSem b tb -> LitSem (a ++ b) (ta ++ tb).
+Proof.
+  intros Ha Hb. induction Ha as [|id text rest t _ IH|id text body tb0 rest t Hbody _ _ IH]; cbn [app].
+  - exact Hb.
+  - constructor. exact IH.
+  - rewrite <- !app_assoc. cbn [app]. constructor; assumption.
+Qed.
+
+Lemma LitSem_nil_inv t : LitSem [] t -> t = [].
+Proof. intros H. inversion H. reflexivity. Qed.
+
+Lemma LitSem_literal seg t : LitSem seg t -> forallb row_is_plain_literal seg = true.
+Proof.
+  induction 1 as [|id text rest t _ IH|id text body tb rest t _ IHb _ IHr]; [reflexivity|exact IH|].
+  cbn [forallb]. rewrite forallb_app. cbn [forallb]. rewrite IHb, IHr. reflexivity.
+Qed.
+
+(* [seg] sits at position [q] of [rows] *)
+Definition At (rows : list raw) (q : nat) (seg : list raw) : Prop :=
+  forall i r, nth_error seg i = Some r -> nth_error rows (q + i) = Some r.
+
+Lemma At_self l : At l 0 l.
+Proof. intros i r H. exact H. Qed.
+
+Lemma At_cons rows q a l : At rows q (a :: l) -> nth_error rows q = Some a /\ At rows (S q) l.
+Proof.
+  intros H. split.
+  - rewrite <- (Nat.add_0_r q). apply H. reflexivity.
+  - intros i r Hi. replace (S q + i) with (q + S i) by lia. apply H. exact Hi.
+Qed.
+
+Lemma At_app rows q a b : At rows q (a ++ b) -> At rows q a /\ At rows (q + length a) b.
+Proof.
+  intros H. split.
+  - intros i r Hi. apply H. rewrite nth_error_app1; [exact Hi|]. apply nth_error_Some. rewrite Hi. discriminate.
+  - intros i r Hi. rewrite <- Nat.add_assoc. apply H. rewrite nth_error_app2 by lia.
+    replace (length a + i - length a) with i by lia. exact Hi.
+Qed.
+
+Section LitRun.
+Variable pol : undefined_policy.
+Variable scope : loop_scope.
+Variable emp : empty_loop.
+Variable tol : bool.
+
+Lemma end_of_block_plain bt : end_of_block bt (Some KPlain) = ROk false.
+Proof. destruct bt; reflexivity. Qed.
+Lemma end_of_block_block bt : end_of_block bt (Some KBeginBlock) = ROk false.
+Proof. destruct bt; reflexivity. Qed.
+
+Lemma instantiate_lit c k id text :
+  instantiate pol c (lit_row k id text) = ROk (mkI k true id text [] []).
+Proof.
+  unfold instantiate, lit_row. cbn [rw_inc eval_inc rw_id rw_text render rw_kind rw_vars]. rewrite !app_nil_r.
+  destruct k; reflexivity.
+Qed.
+
+(* reading one literal plain row *)
+Lemma step_plain rows f q c0 lg bt id text :
+  nth_error rows q = Some (lit_row KPlain id text) ->
+  parse_block pol scope emp tol rows (S f) (mkP q c0 lg) bt false
+  = parse_block pol scope emp tol rows f (mkP (S q) c0 (EvRow id text :: EvInst q :: lg)) bt false.
+Proof.
+  intros Hn. cbn [parse_block]. unfold next_row. cbn [p_pos p_ctx p_log]. rewrite Hn.
+  rewrite instantiate_lit. cbn [option_map i_kind]. rewrite end_of_block_plain.
+  cbn [i_inc negb orb i_kind i_id i_text log p_pos p_ctx p_log]. reflexivity.
+Qed.
+
+Lemma step_block rows f q c0 lg bt id text :
+  nth_error rows q = Some (lit_row KBeginBlock id text) ->
+  parse_block pol scope emp tol rows (S f) (mkP q c0 lg) bt false
+  = match parse_block pol scope emp tol rows f (mkP (S q) c0 (EvEnter BBlock false :: EvPush :: EvInst q :: lg)) BBlock false with
+    | ROk s2 => parse_block pol scope emp tol rows f (log s2 (EvEnd id)) bt false
+    | RErr e => RErr e
+    end.
+Proof.
+  intros Hn. cbn [parse_block]. unfold next_row. cbn [p_pos p_ctx p_log]. rewrite Hn.
+  rewrite instantiate_lit. cbn [option_map i_kind]. rewrite end_of_block_block.
+  cbn [i_inc negb orb i_kind i_id i_text log p_pos p_ctx p_log]. reflexivity.
+Qed.
+
+Lemma step_end rows f q c0 lg :
+  nth_error rows q = Some end_row ->
+  parse_block pol scope emp tol rows (S f) (mkP q c0 lg) BBlock false = ROk (mkP (S q) c0 (EvInst q :: lg)).
+Proof.
+  intros Hn. cbn [parse_block]. unfold next_row. cbn [p_pos p_ctx p_log]. rewrite Hn.
+  reflexivity.
+Qed.
+
+(* the parser on a literal balanced segment: it logs events whose tokens are the segment's, leaves
+   the context alone and goes on behind the segment — in whatever block the segment lies *)
+Theorem lit_run : forall seg tk, LitSem seg tk ->
+  forall rows q c0 lg, At rows q seg ->
+  exists evs', rtoks evs' = tk /\
+    forall bt f sfin,
+      parse_block pol scope emp tol rows f (mkP (q + length seg) c0 (evs' ++ lg)) bt false = ROk sfin ->
+      exists f', parse_block pol scope emp tol rows f' (mkP q c0 lg) bt false = ROk sfin.
+Proof.
+  induction 1 as [|id text rest t _ IH|id text body tb rest t _ IHb _ IHr]; intros rows q c0 lg Hat.
+  - exists []. split; [reflexivity|]. intros bt f sfin H. exists f. cbn [length app] in H. rewrite Nat.add_0_r in H. exact H.
+  - destruct (At_cons _ _ _ _ Hat) as [Hq Hrest].
+    destruct (IH rows (S q) c0 (EvRow id text :: EvInst q :: lg) Hrest) as [evs1 [Ht1 Hrun1]].
+    exists (evs1 ++ [EvRow id text; EvInst q]). split.
+    + rewrite rtoks_app, Ht1. reflexivity.
+    + intros bt f sfin H. cbn [length] in H. rewrite <- app_assoc in H. cbn [app] in H.
+      replace (q + S (length rest)) with (S q + length rest) in H by lia.
+      destruct (Hrun1 _ _ _ H) as [f1 H1]. exists (S f1). rewrite (step_plain _ _ _ _ _ _ _ _ Hq). exact H1.
+  - destruct (At_cons _ _ _ _ Hat) as [Hq Hrest0].
+    destruct (At_app _ _ _ _ Hrest0) as [Hbody Hrest1].
+    destruct (At_cons _ _ _ _ Hrest1) as [Hend Hrest].
+    set (lgb := EvEnter BBlock false :: EvPush :: EvInst q :: lg).
+    destruct (IHb rows (S q) c0 lgb Hbody) as [evsb [Htb Hrunb]].
+    set (qe := S q + length body) in *.
+    set (lgr := EvEnd id :: EvInst qe :: evsb ++ lgb).
+    destruct (IHr rows (S qe) c0 lgr Hrest) as [evsr [Htr Hrunr]].
+    exists (evsr ++ [EvEnd id; EvInst qe] ++ evsb ++ [EvEnter BBlock false; EvPush; EvInst q]). split.
+    + rewrite !rtoks_app, Htr, Htb. unfold rtoks. cbn [rev app toks]. rewrite <- !app_assoc. reflexivity.
+    + intros bt f sfin H.
+      assert (Hlen : q + length (lit_row KBeginBlock id text :: body ++ end_row :: rest) = S qe + length rest).
+      { cbn [length]. rewrite app_length. cbn [length]. unfold qe. lia. }
+      rewrite Hlen in H.
+      assert (Hlg : (evsr ++ [EvEnd id; EvInst qe] ++ evsb ++ [EvEnter BBlock false; EvPush; EvInst q]) ++ lg = evsr ++ lgr).
+      { unfold lgr, lgb. rewrite <- !app_assoc. cbn [app]. reflexivity. }
+      rewrite Hlg in H.
+      destruct (Hrunr _ _ _ H) as [fr Hr].
+      assert (He : parse_block pol scope emp tol rows 1 (mkP (S q + length body) c0 (evsb ++ lgb)) BBlock false
+                   = ROk (mkP (S qe) c0 (EvInst qe :: evsb ++ lgb))).
+      { exact (step_end _ _ _ _ _ Hend). }
+      destruct (Hrunb _ _ _ He) as [fb Hb].
+      exists (S (Nat.max fb fr)). rewrite (step_block _ _ _ _ _ _ _ _ Hq).
+      change (EvEnter BBlock false :: EvPush :: EvInst q :: lg) with lgb.
+      rewrite (parse_block_mono _ _ _ _ _ _ _ _ _ _ Hb ltac:(discriminate) _ (Nat.le_max_l fb fr)).
+      cbn [log p_pos p_ctx p_log].
+      exact (parse_block_mono _ _ _ _ _ _ _ _ _ _ Hr ltac:(discriminate) _ (Nat.le_max_r fb fr)).
+Qed.
+
+End LitRun.
